@@ -220,9 +220,12 @@ func run(in Input) (o Obs) {
 				after := make([]Val, len(d.Fields))
 				for j, f := range d.Fields {
 					after[j] = vAbsent
-					keys := []string{f.Col, f.field.Name}
+					keys := []string{f.Col}
+					if in.MapKeys == "name" {
+						keys = []string{f.field.Name}
+					}
 					if f.HPK {
-						keys = append(keys, "@id")
+						keys = []string{f.field.Name, f.Col, "@id"} // where gorm may write the key
 					}
 					for _, key := range keys {
 						if v, ok := maps[i][key]; ok {
